@@ -12,12 +12,18 @@ def stable_ok(wt):
     base = json.load(open("/root/.vp/BASELINE.json"))
     junit = tempfile.mktemp(suffix=".xml")
     env = dict(os.environ, PYTHONPATH=wt); env.pop("NREL_JADE_VERIF", None)
+    # the pinned tests use fixed file names under the temporary directory: give every run its own
+    tmpd = os.path.join(wt, ".seedverify_tmp")
+    shutil.rmtree(tmpd, ignore_errors=True)
+    os.makedirs(tmpd)
+    env["TMPDIR"] = tmpd
     sh(f"/venv/bin/python -m pytest -ra -q -p no:cacheprovider --timeout=900 --continue-on-collection-errors --junitxml={junit}", wt, env)
     passed = set()
     for tc in ET.parse(junit).getroot().iter("testcase"):
         if not any(ch.tag in ("failure", "error", "skipped") for ch in tc):
             passed.add(f"{tc.get('classname')}::{tc.get('name')}")
     os.remove(junit)
+    shutil.rmtree(tmpd, ignore_errors=True)
     missing = [t for t in base["stable_pass"] if t not in passed]
     return len(passed), missing
 
